@@ -81,9 +81,17 @@ def make_monitor(step_fudge, max_force, grid_holder):
     return mon
 
 
+class _Timeout(BaseException):
+    pass
+
+
+def _alarm(signum, frame):
+    raise _Timeout()
+
+
 # ------------------------------------------------------------------ lattice runs (exact part)
 
-def lattice_top(chains):
+def lattice_top(chains, closed=()):
     lines = ["[ defaults ]", "1 2 no 1.0 1.0", "[ atomtypes ]", "P 72.0 0.0 A %.2f 4.0" % H]
     for m, n in enumerate(chains, 1):
         lines += ["[ moleculetype ]", "C%d 1" % m, "[ atoms ]"]
@@ -91,6 +99,8 @@ def lattice_top(chains):
         if n > 1:
             lines.append("[ bonds ]")
             lines += ["%d %d 1 %.2f 100" % (i, i + 1, H) for i in range(1, n)]
+            if m in closed and n > 2:
+                lines.append("%d 1 1 %.2f 100" % (n, H))
     lines += ["[ system ]", "lattice", "[ molecules ]"] + ["C%d 1" % m for m in range(1, len(chains) + 1)]
     return "\n".join(lines) + "\n"
 
@@ -99,7 +109,7 @@ class Scripted(Exception):
     pass
 
 
-def lattice_run(L, chains, grid, bundle, maxiter, script=None, seed=0):
+def lattice_run(L, chains, grid, bundle, maxiter, script=None, seed=0, closed=()):
     """run the real BuildSystem on the lattice instance; script = list of ("start", grid index) / ("draw", vector index) or None (real draws).
     returns (events, final positions, error)"""
     from polyply.src.topology import Topology
@@ -207,7 +217,7 @@ def lattice_run(L, chains, grid, bundle, maxiter, script=None, seed=0):
         return o_npri(*a, **k) if v is None else v
     with tempfile.TemporaryDirectory(prefix="verif_c05_", dir="/var/tmp") as wd:
         top = Path(wd) / "l.top"
-        top.write_text(lattice_top(chains))
+        top.write_text(lattice_top(chains, closed))
         topology = Topology.from_gmx_topfile(name="lattice", path=top)
         topology.preprocess()
         topology.volumes = {"RA": H}
@@ -256,7 +266,7 @@ def strip(evs):
 
 def _lattice_replay(case):
     try:
-        evs, pos, err = lattice_run(case["L"], case["chains"], case["grid"], case["bundle"], case["maxiter"], script_from(case))
+        evs, pos, err = lattice_run(case["L"], case["chains"], case["grid"], case["bundle"], case["maxiter"], script_from(case), closed=case.get("closed", ()))
     except Exception as exc:
         return ("machinery", "%s: %s" % (type(exc).__name__, exc))
     exp = case["evs"]
@@ -278,24 +288,23 @@ def _lattice_replay(case):
 
 
 def _lattice_trace(arg):
-    sd, L, chains, grid = arg
+    sd, L, chains, grid, closed = arg
     bundle = [1, 2, 3, 4, 5, 6] * 14
+    # accepted molecules never move, so a dense lattice can become infeasible for the remaining ones: time limit, no verdict
+    signal.signal(signal.SIGALRM, _alarm)
+    signal.setitimer(signal.ITIMER_REAL, 25, 5)
     try:
-        evs, pos, err = lattice_run(L, chains, grid, bundle, 80, None, seed=sd)
+        evs, pos, err = lattice_run(L, chains, grid, bundle, 80, None, seed=sd, closed=closed)
+    except _Timeout:
+        return {"noverdict": "timeout"}
     except Exception as exc:
         return {"machinery": "%s: %s" % (type(exc).__name__, exc)}
+    finally:
+        signal.setitimer(signal.ITIMER_REAL, 0)
     return {"evs": evs, "err": err}
 
 
 # ------------------------------------------------------------------ off-lattice real runs (monitor part)
-
-class _Timeout(Exception):
-    pass
-
-
-def _alarm(signum, frame):
-    raise _Timeout()
-
 
 Y_TOP = """[ defaults ]
 1 2 no 1.0 1.0
@@ -333,12 +342,70 @@ RING 1
 3 4 1 0.47 100
 4 5 1 0.47 100
 5 1 1 0.47 100
+[ moleculetype ]
+TRI 1
+[ atoms ]
+1 P 1 RA B1 1 0.0 72
+2 P 2 RA B1 2 0.0 72
+3 P 3 RA B1 3 0.0 72
+[ bonds ]
+1 2 1 0.47 100
+2 3 1 0.47 100
+3 1 1 0.47 100
 [ system ]
 mix
 [ molecules ]
 Y %d
 RING %d
+TRI %d
 """
+
+
+SLAB_TOP = """[ defaults ]
+1 2 no 1.0 1.0
+[ atomtypes ]
+P 72.0 0.0 A 0.47 4.0
+[ moleculetype ]
+W 1
+[ atoms ]
+1 P 1 W W 1 0.0 72
+[ moleculetype ]
+S 1
+[ atoms ]
+1 P 1 SA SA 1 0.0 72
+[ moleculetype ]
+C4 1
+[ atoms ]
+1 P 1 CA CA 1 0.0 72
+2 P 2 CA CA 2 0.0 72
+3 P 3 CA CA 3 0.0 72
+4 P 4 CA CA 4 0.0 72
+[ bonds ]
+1 2 1 0.47 100
+2 3 1 0.47 100
+3 4 1 0.47 100
+[ system ]
+slab
+[ molecules ]
+W %d
+S 20
+C4 6
+"""
+
+
+def slab_files(wd, sd, nw=5200):
+    """more than 5000 supplied residues in a slab (the engine opens a second search tree), the rest is built from a small user grid"""
+    rng = np.random.default_rng(sd)
+    nx = 60
+    rows = []
+    for i in range(nw):
+        x, y, z = 0.15 + 0.16 * (i % nx), 0.15 + 0.16 * ((i // nx) % nx), 0.2 + 0.35 * (i // (nx * nx))
+        rows.append("%5d%-5s%5s%5d%8.3f%8.3f%8.3f" % (1, "W", "W", (i + 1) % 100000, x, y, z))
+    (wd / "slab.gro").write_text("slab\n%5d\n%s\n%10.5f%10.5f%10.5f\n" % (nw, "\n".join(rows), 10.0, 10.0, 12.0))
+    (wd / "slab.top").write_text(SLAB_TOP % nw)
+    g = np.array([[3.0 + 0.5 * i, 3.0 + 0.5 * j, 7.0 + 0.5 * k] for i in range(4) for j in range(4) for k in range(4)])
+    np.savetxt(wd / "grid.dat", g)
+    return g
 
 
 def _real_run(arg):
@@ -347,16 +414,28 @@ def _real_run(arg):
     np.random.seed(sd)
     random.seed(sd)
     signal.signal(signal.SIGALRM, _alarm)
-    signal.alarm(150)
+    signal.setitimer(signal.ITIMER_REAL, 150, 5)
     holder = {}
     try:
         with tempfile.TemporaryDirectory(prefix="verif_c05_", dir="/var/tmp") as wd:
             wd = Path(wd)
+            if kind == "slab":
+                holder["grid"] = slab_files(wd, sd)
+                with w.recording(monitor=make_monitor(step_fudge, max_force, holder)) as rec:
+                    try:
+                        gen_coords(toppath=wd / "slab.top", outpath=wd / "o.gro", name="t", coordpath=wd / "slab.gro", grid=str(wd / "grid.dat"),
+                                   max_force=max_force, nrewind=nrewind, step_fudge=step_fudge)
+                    except _Timeout:
+                        return {"noverdict": "timeout"}
+                    except Exception as exc:
+                        return {"inst": rec.header, "evs": rec.events, "error_in_code": "%s: %s" % (type(exc).__name__, exc)}
+                inst, evs = w.compact_trace(rec.header, rec.events)
+                return {"inst": inst, "evs": evs, "error_in_code": None}
             if kind == "melt":
                 top = FIX / "e5b" / "melt.top"
             else:
                 top = wd / "mix.top"
-                top.write_text(Y_TOP % (6, 4))
+                top.write_text(Y_TOP % (6, 4, 8))
             kw = {}
             if usegrid:
                 rng = np.random.default_rng(sd)
@@ -378,7 +457,7 @@ def _real_run(arg):
     except _Timeout:
         return {"noverdict": "timeout"}
     finally:
-        signal.alarm(0)
+        signal.setitimer(signal.ITIMER_REAL, 0)
 
 
 def validate_lattice(ck, doc, name, expect_reject=False):
@@ -404,7 +483,7 @@ def validate_lattice(ck, doc, name, expect_reject=False):
     ck.traces += len(doc["traces"]) - len(rejected)
     for tid, matched in sorted(rejected.items()):
         tr = doc["traces"][tid - 1]
-        ck.violation({"kind": "lattice trace", "doc": {k: doc[k] for k in ("L", "chains", "grid", "bundle")}, "evs": tr[:matched + 1], "matched": matched},
+        ck.violation({"kind": "lattice trace", "doc": {k: doc[k] for k in ("L", "chains", "closed", "grid", "bundle")}, "evs": tr[:matched + 1], "matched": matched},
                      what="lattice run rejected by LatticeWalk after %d matched events; next event %s" % (matched, json.dumps(tr[matched])[:300] if matched < len(tr) else None))
     return rejected
 
@@ -426,12 +505,14 @@ def run(tier):
             ("MC_Lattice", q3 if tier == "quick" else "Lat_small3.cfg", {"workers": 6, "timeout": 3000}),
             ("MC_Lattice", "Lat_dev_nowrap.cfg", {"check": False, "workers": 1}),
             ("MC_Lattice", "Lat_dev_nooverlap.cfg", {"check": False, "workers": 1}),
+            ("MC_Lattice", "Lat_dev_neigh.cfg", {"check": False, "workers": 1}),
             ("LatticeExport", "Lat_export.cfg", {"workers": 4})]
-    small, small3, d1, d2, ex = c.tlc_many(jobs)
+    small, small3, d1, d2, d3, ex = c.tlc_many(jobs)
     ck.model_must_hold(small, "StepOne/InBox/NoOverlap/RootOnGrid/Contiguous/Final (L=2)")
     ck.model_must_hold(small3, "StepOne/InBox/NoOverlap/RootOnGrid/Contiguous/Final (L=3)")
     ck.model_must_refute(d1, "InBox", "new position not wrapped into the box")
     ck.model_must_refute(d2, "NoOverlap", "overlap test bypassed")
+    ck.model_must_refute(d3, "NoOverlap", "0.1 nm test skipped for bonded neighbours (ring-closing residue)")
     ck.model_must_hold(ex, "export")
     cases = ex.cases()
     ck.require(len(cases) > 1000, "too few lattice behaviours exported: %d" % len(cases))
@@ -456,16 +537,20 @@ def run(tier):
     ck.stage("I->S exact: lattice runs with real draws")
     grid3 = [[0, 0, 0], [2, 2, 2], [1, 0, 2], [0, 1, 1], [2, 0, 1]]
     n = 40 if tier == "quick" else 400
-    outs = c.pmap(_lattice_trace, [(sd * 1000 + i, 3, [7, 7], grid3) for i in range(n)], chunksize=2)
+    lchains, lclosed = [3, 3, 5, 3], [1, 2, 4]      # three 3-rings (the closing residue can step back onto residue 1) and a chain
+    outs = c.pmap(_lattice_trace, [(sd * 1000 + i, 3, lchains, grid3, lclosed) for i in range(n)], chunksize=2)
     traces = []
     for o in outs:
+        if "noverdict" in o:
+            ck.extra["lattice_no_verdict"] = ck.extra.get("lattice_no_verdict", 0) + 1
+            continue
         if "machinery" in o:
             raise c.MachineryError(o["machinery"])
         if o["err"]:
             ck.violation({"kind": "lattice run", "error": o["err"], "evs": o["evs"][-10:]}, what="lattice run with real draws failed: %s" % o["err"])
             continue
         traces.append(o["evs"])
-    doc = {"L": 3, "chains": [7, 7], "grid": grid3, "bundle": [1, 2, 3, 4, 5, 6] * 14, "traces": traces}
+    doc = {"L": 3, "chains": lchains, "closed": lclosed, "grid": grid3, "bundle": [1, 2, 3, 4, 5, 6] * 14, "traces": traces}
     if traces:
         validate_lattice(ck, doc, "lattice")
         wraps = sum(1 for t in traces for e in t if e["ev"] == "draw" and e["ok"] and (0 in e["to"] or 2 in e["to"]))
@@ -482,6 +567,7 @@ def run(tier):
     ck.stage("I->S monitor: real gen_coords runs")
     runs = [("melt", [3.0, 3.0, 3.0], 1.0, 3000.0, 3, sd * 100 + 1, False), ("melt", [2.6, 3.2, 3.4], 0.8, 5000.0, 5, sd * 100 + 2, False),
             ("mix", [3.0, 2.5, 2.8], 1.2, 2000.0, 2, sd * 100 + 3, True), ("mix", [2.6, 2.6, 2.6], 1.0, 5e4, 5, sd * 100 + 4, False)]
+    runs.append(("slab", [10.0, 10.0, 12.0], 1.0, 5e4, 5, sd * 100 + 5, True))
     if tier == "thorough":
         runs += [(k, b, sf, mf, nr, sd * 100 + 10 + i, g) for i, (k, b, sf, mf, nr, g) in enumerate(
             [(k, b, sf, mf, nr, g) for k in ("melt", "mix") for b in ([3.0, 3.0, 3.0], [2.7, 3.1, 3.3]) for sf in (0.8, 1.0, 1.2)
